@@ -97,3 +97,47 @@ func VerifC13AfterUpgrade() {
 	got, found := k.GetClientState(dst, chain)
 	rt.Assert("G2-upgraded-client-preserved", found && got.ClientType() == cs1.ClientType())
 }
+
+// VerifC13TwoConsensusStates: a Tendermint client that holds two consensus states (created at one height, updated to
+// another, both written with the metadata an update writes): both are exported, the export validates, and both are there
+// after the import - every consensus state at every height, not only the first ones an export happens to read.
+func VerifC13TwoConsensusStates() {
+	rt.Opt("structured-keys")
+	rt.RegisterInterfaces(types.RegisterInterfaces)
+	rt.RegisterInterfaces(tmtypes.RegisterInterfaces)
+	k := genesisKeeper()
+	src := rt.EmptyCtx()
+	chain := "chain-a"
+	k.SetChainName(src, "teleport")
+	cs, cons1 := c13Client(0, "first")
+	rt.Assume(cs.Validate() == nil && cons1.ValidateBasic() == nil)
+	rt.Assume(k.CreateClient(src, chain, cs, cons1) == nil)
+	h1 := cs.GetLatestHeight().(types.Height)
+	h2 := types.Height{RevisionNumber: 0, RevisionHeight: rt.U64("second.height")}
+	rt.Assume(h2.RevisionHeight >= 1 && h2.RevisionHeight <= 40 && h2 != h1)
+	cons2 := &tmtypes.ConsensusState{Timestamp: rt.Time("second.time"), Root: rt.Bytes("second.root"), NextValidatorsHash: rt.Bytes("second.nextVals")}
+	rt.Assume(cons2.ValidateBasic() == nil)
+	k.SetClientConsensusState(src, chain, h2, cons2)
+	store := k.ClientStore(src, chain)
+	tmtypes.SetProcessedTime(store, h2, rt.U64("second.processedTime"))
+	tmtypes.SetIterationKey(store, h2)
+
+	gs := ExportGenesis(src, k)
+	rt.Reach("exported")
+	rt.Assert("G1-export-passes-validation", gs.Validate() == nil)
+	n := 0
+	for _, cc := range gs.ClientsConsensus {
+		if cc.ChainName == chain {
+			n += len(cc.ConsensusStates)
+		}
+	}
+	rt.Assert("G1-every-consensus-state-exported", n == 2)
+	dst := rt.EmptyCtx()
+	if rt.NoPanic("G2-import-does-not-panic", func() { InitGenesis(dst, k, gs) }) {
+		return
+	}
+	rt.Reach("imported")
+	_, ok1 := k.GetClientConsensusState(dst, chain, h1)
+	_, ok2 := k.GetClientConsensusState(dst, chain, h2)
+	rt.Assert("G2-both-consensus-states-preserved", ok1 && ok2)
+}
